@@ -469,6 +469,11 @@ func (m c11) Exec(ctx *core.Ctx, cs *core.Case) {
 					l.Delete(a0)
 				case "sp.set":
 					l.Set(a0, a1)
+				case "sp.rewrite":
+					for j := range l.Pairs {
+						l.Pairs[j].Value += a0
+						l.Pairs[j].Name = a1 + l.Pairs[j].Name
+					}
 				}
 				candidates[k] = l.Pairs
 			}
@@ -499,6 +504,12 @@ func (m c11) Exec(ctx *core.Ctx, cs *core.Case) {
 		case "sp.set":
 			model.Set(a0, a1)
 			names[a0] = true
+		case "sp.rewrite":
+			// every pair rewritten through the pointers Iterate hands out
+			for j := range model.Pairs {
+				model.Pairs[j].Value += a0
+				model.Pairs[j].Name = a1 + model.Pairs[j].Name
+			}
 		case "sp.sort", "sp.sortabs":
 			raw := readPairs(sp)
 			got := scalarPairs(raw)
